@@ -106,7 +106,12 @@ struct V : RecursiveASTVisitor<V> {
       o["const"] = M->isConst(); o["static"] = M->isStatic(); o["virtual"] = M->isVirtual();
       o["access"] = M->getAccess() == AS_public ? "public" : M->getAccess() == AS_protected ? "protected" : "private";
       o["kind"] = isa<CXXConstructorDecl>(M) ? "ctor" : isa<CXXDestructorDecl>(M) ? "dtor" : "method";
-      json::Array ov; for (auto *O : M->overridden_methods()) ov.push_back(usrOf(O)); o["ov"] = std::move(ov);
+      // every method this one overrides, through intermediate declarations that have no body of their own (pure virtuals re-declared in a
+      // middle class): the call graph resolves a virtual call on the top-level base to all of these
+      json::Array ov; { std::vector<const CXXMethodDecl*> work(M->overridden_methods().begin(), M->overridden_methods().end()); std::set<std::string> seenOv;
+        while (!work.empty()) { const CXXMethodDecl *O = work.back(); work.pop_back(); std::string u = usrOf(O); if (!seenOv.insert(u).second) continue; ov.push_back(u);
+          for (auto *P : O->overridden_methods()) work.push_back(P); } }
+      o["ov"] = std::move(ov);
       if (auto *D = dyn_cast<CXXDestructorDecl>(F)) {
         json::Array im; const CXXRecordDecl *R = D->getParent();
         if (R->isCompleteDefinition()) {
